@@ -200,7 +200,7 @@ pub fn gen(rng: &mut ChaCha20Rng, n: usize, thorough: bool) -> Vec<Case> {
     // ------------------------------------------------------------------ scripts
     let mut scripts: Vec<Vec<u8>> = vec![vec![], vec![0x6a], vec![0x4c], vec![0x4d, 1], vec![0x4e, 1, 0, 0], vec![0x4c, 5, 1], vec![0x4e, 0xff, 0xff, 0xff, 0xff], vec![0x4e, 0xff, 0xff, 0xff, 0xff, 1],
                                       vec![0x4d, 0xff, 0xff], vec![0x01], vec![0x4b], vec![0x51, 0x01, 0xaa], vec![0x51, 0x00], vec![0x60, 0x28], vec![0x00, 0x14], vec![0x76, 0xa9, 0x14]];
-    if thorough { for a in 0..=255u8 { scripts.push(vec![a]); for b in [0u8, 1, 2, 0x4b, 0x4c, 0x4d, 0x4e, 0x51, 0x6a, 0x81, 0xff] { scripts.push(vec![a, b]); } } }
+    if thorough { for a in 0..=255u8 { scripts.push(vec![a]); for b in 0..=255u8 { scripts.push(vec![a, b]); } } }
     else { for a in [0x00u8, 0x4b, 0x4c, 0x4d, 0x4e, 0x4f, 0x50, 0x60, 0x61, 0x6a, 0xba, 0xc0, 0xc4, 0xe4, 0xfe, 0xff] { scripts.push(vec![a]); scripts.push(vec![a, 1]); } }
     for _ in 0..n {
         let l = pk!(rng, [rng.gen_range(0..6usize), rng.gen_range(0..40), rng.gen_range(0..300)]);
